@@ -873,3 +873,6 @@ def _users(r, obs, rep, F):
     if repr(ctxs) != snap:
         rep.fail("argument-changed", "user workload changed its input contexts: %s -> %r"
                  % (snap, ctxs))
+
+
+RULE += (' Added: arguments with sharing inside (one sub-dictionary object under two keys), histories of the value-less string form of update_recursively with in-place changes in between, update_nested chains of up to 14 levels.')
